@@ -1,6 +1,7 @@
 package main
 
 import (
+	"regexp"
 	"fmt"
 	"go/token"
 	"go/types"
@@ -142,8 +143,21 @@ func (w *World) TagOf(t types.Type) int {
 
 // typeKey is the canonical name of a type used in heap names.
 func typeKey(t types.Type) string {
-	return types.TypeString(t, func(p *types.Package) string { return p.Path() })
+	s := types.TypeString(t, func(p *types.Package) string { return p.Path() })
+	// byte/uint8, rune/int32 and any/interface{} are the same types: one heap name for each
+	if strings.Contains(s, "byte") || strings.Contains(s, "rune") || strings.Contains(s, "any") {
+		s = reAliasByte.ReplaceAllString(s, "${1}uint8${2}")
+		s = reAliasRune.ReplaceAllString(s, "${1}int32${2}")
+		s = reAliasAny.ReplaceAllString(s, "${1}interface{}${2}")
+	}
+	return s
 }
+
+var (
+	reAliasByte = regexp.MustCompile(`(^|[^A-Za-z0-9_./])byte($|[^A-Za-z0-9_])`)
+	reAliasRune = regexp.MustCompile(`(^|[^A-Za-z0-9_./])rune($|[^A-Za-z0-9_])`)
+	reAliasAny  = regexp.MustCompile(`(^|[^A-Za-z0-9_./])any($|[^A-Za-z0-9_])`)
+)
 
 // shortTypeKey strips the module path for readability in obligation names.
 func shortName(s string) string {
